@@ -5,7 +5,7 @@
 From Coq Require Import ZArith NArith List String Bool.
 From CB Require Import Crypto.Alg Crypto.AlgPairing Crypto.Transcript Crypto.TranscriptProofs Crypto.SigmaGeneric Crypto.SigmaCodec
   Crypto.Sigma_dlog Crypto.Sigma_dlogeq Crypto.Sigma_com_eq Crypto.Sigma_com_enc_eq Crypto.Sigma_com_mult
-  Crypto.Sigma_aggregate_dlog Crypto.Sigma_enc_trans Crypto.Sigma_com_lin Crypto.Sigma_com_eq_diff Crypto.Sigma_com_ineq Crypto.Sigma_vcom_eq Crypto.Sigma_com_eq_sig Crypto.Sigma_dlogaggequal
+  Crypto.Sigma_aggregate_dlog Crypto.Sigma_enc_trans Crypto.Sigma_com_lin Crypto.Sigma_com_eq_diff Crypto.Sigma_com_ineq Crypto.Sigma_vcom_eq Crypto.Sigma_com_eq_sig Crypto.Sigma_dlogaggequal Crypto.Sigma_ps_sig_known
   Crypto.SigmaExec.
 Import ListNotations.
 
@@ -361,7 +361,15 @@ Section Pairing.
       (fun s => (N.of_nat (List.length (cs_cmts s)) < W64)%N /\ (N.of_nat (List.length (cs_ys s)) < W32)%N /\
                 (N.of_nat (List.length (cs_yts s)) < W32)%N).
   Proof. exact (ces_public_prefix_free_v1_ Cd1 Cd2 CdT CdC). Qed.
+  (** ps_sig_known: messages committed / public / known *)
+  Theorem ps_sig_known_complete : complete (pss_proto Cd1 Cd2 CdT CdC) pss_rel pss_rok.
+  Proof. exact (pss_complete_ Cd1 Cd2 CdT CdC). Qed.
+  Theorem ps_sig_known_rejects_wrong_length : forall (s : pss_stmt P MC) c zr zs a,
+    pss_extract s c (zr, zs) = Some a -> List.length zs = List.length (ps_msgs s).
+  Proof. exact pss_extract_length_. Qed.
 End Pairing.
+Print Assumptions ps_sig_known_complete.
+Print Assumptions ps_sig_known_rejects_wrong_length.
 Print Assumptions com_eq_sig_complete.
 Print Assumptions com_eq_sig_special_sound.
 Print Assumptions com_eq_sig_rejects_wrong_length.
